@@ -72,7 +72,7 @@ def optional_children_exercise(doc, r):
     for l in doc.lights:
         names = [a for a in ('constant_att', 'linear_att', 'quad_att', 'falloff_ang', 'falloff_exp') if hasattr(l, a)]
         if names:
-            objs.append((l, names, lambda: 0.5))
+            objs.append((l, names, lambda: r.choice([0.5, 0.0, 2.0])))
     for c in doc.assetInfo.contributors:
         objs.append((c, ['author', 'authoring_tool', 'comments', 'copyright', 'source_data'], lambda: 'text'))
     for e in doc.effects:
